@@ -538,6 +538,9 @@ def check_reuse(case, out):
     out.nontrivial = len({json.dumps(x, sort_keys=True, default=str) for x in fresh}) > 1
     out.obs = '%s [%s] x %d argument sets' % (expr, ver, len(argsets))
     if o[0] != 'ok':
+        if o[0] == 'err' and all(f[0] == 'err' and f[1] == o[1] for f in fresh):
+            out.dim('reuse_static_error', o[1])      # all-literal call folded (and failing) at parse time, as when fresh
+            return
         out.fail('C09/%s/reused-expression/raised' % fn, {'expr': expr, 'version': ver, 'got': list(o)})
         return
     for k, (a, b) in enumerate(zip(fresh, o[1])):
